@@ -155,7 +155,11 @@ pub fn run_case(id: &str, case: &Value) -> Value {
                 Ok(s) => {
                     let t = s.icmp_type();
                     let h = s.header();
-                    let hs = Icmpv4Header::from_slice(&b).map(|(x, rest)| x == h && rest.len() == s.payload().len()).unwrap_or(false);
+                    let hs = Icmpv4Header::from_slice(&b).map(|(x, rest)| x == h && rest.len() == s.payload().len()).unwrap_or(false)
+                        // the value survives encode -> decode, all serialisers agree
+                        && Icmpv4Header::from_slice(&h.to_bytes()).map(|(x, rest)| x == h && rest.is_empty()).unwrap_or(false)
+                        && { let mut w: Vec<u8> = vec![]; h.write(&mut w).is_ok() && w[..] == h.to_bytes()[..] && w.len() == h.header_len() }
+                        && Icmpv4Header::read(&mut std::io::Cursor::new(&h.to_bytes()[..])).map(|x| x == h).unwrap_or(false);
                     json!({"ev": "icmp4", "id": id, "bytes": b, "ok": 1, "req": -1, "len": -1, "layer": "", "kind": vname(&t), "hlen": s.header_len(),
                            "norm": h.to_bytes().to_vec(), "pay": rg(&c, s.payload()), "hdr_same": if hs && h.icmp_type == t && t.header_len() == s.header_len() { 1 } else { 0 }})
                 }
@@ -166,7 +170,10 @@ pub fn run_case(id: &str, case: &Value) -> Value {
                 Ok(s) => {
                     let t = s.icmp_type();
                     let h = s.header();
-                    let hs = Icmpv6Header::from_slice(&b).map(|(x, rest)| x == h && rest.len() == s.payload().len()).unwrap_or(false);
+                    let hs = Icmpv6Header::from_slice(&b).map(|(x, rest)| x == h && rest.len() == s.payload().len()).unwrap_or(false)
+                        && Icmpv6Header::from_slice(&h.to_bytes()).map(|(x, rest)| x == h && rest.is_empty()).unwrap_or(false)
+                        && { let mut w: Vec<u8> = vec![]; h.write(&mut w).is_ok() && w[..] == h.to_bytes()[..] && w.len() == h.header_len() }
+                        && Icmpv6Header::read(&mut std::io::Cursor::new(&h.to_bytes()[..])).map(|x| x == h).unwrap_or(false);
                     let (ps, opts, pv) = match s.payload_slice() {
                         Err(e) => (json!({"k": "err", "name": "", "req": e.required_len, "len": e.len}), none_opts(),
                                    // the type based entry points have to refuse as well
@@ -190,7 +197,20 @@ pub fn run_case(id: &str, case: &Value) -> Value {
                            "hdr_same": if hs && h.icmp_type == t { 1 } else { 0 }, "ps": ps, "opts": opts, "pv": pv, "tc": [t.type_u8(), t.code_u8(), fps]})
                 }
             },
-            "ndp" => json!({"ev": "ndp", "id": id, "bytes": b, "steps": ndp_steps(&c, icmpv6::NdpOptionsIterator::from_slice(&b))}),
+            "ndp" => {
+                // the two byte option header on its own: [ok, type, units, byte_len, rest length, re-encoded ok]
+                let oh = match icmpv6::NdpOptionHeader::from_slice(&b) {
+                    Ok((h, rest)) => vec![1, h.option_type.0 as i64, h.length_units as i64, h.byte_len() as i64, rest.len() as i64,
+                                          if h.to_bytes()[..] == b[..2] && icmpv6::NdpOptionHeader::from_bytes([b[0], b[1]]) == h { 1 } else { 0 }],
+                    Err(_) => vec![0, -1, -1, -1, -1, -1],
+                };
+                // echo header: identifier / sequence number are the two 16 bit halves of bytes 5 to 8
+                let echo = if b.len() >= 4 {
+                    let e = IcmpEchoHeader::from_bytes([b[0], b[1], b[2], b[3]]);
+                    vec![e.id as i64, e.seq as i64, if e.to_bytes()[..] == b[..4] { 1 } else { 0 }]
+                } else { vec![] };
+                json!({"ev": "ndp", "id": id, "bytes": b, "steps": ndp_steps(&c, icmpv6::NdpOptionsIterator::from_slice(&b)), "oh": oh, "echo": echo})
+            }
             "igmp" => match IgmpHeader::from_slice(&b) {
                 Err(e) => json!({"ev": "igmp", "id": id, "bytes": b, "ok": 0, "req": e.required_len, "len": e.len, "kind": "", "hlen": -1, "norm": [], "rest": [-1, -1]}),
                 Ok((h, rest)) => json!({"ev": "igmp", "id": id, "bytes": b, "ok": 1, "req": -1, "len": -1, "kind": vname(&h.igmp_type), "hlen": h.header_len(),
@@ -214,12 +234,16 @@ pub fn run_case(id: &str, case: &Value) -> Value {
                                 f.extend(v.sender_ipv4.iter().map(|x| *x as i64));
                                 f.extend(v.target_mac.iter().map(|x| *x as i64));
                                 f.extend(v.target_ipv4.iter().map(|x| *x as i64));
-                                let back = ArpPacket::from(v.clone()) == p;
+                                // the view written out again, its address accessors and the TryFrom door
+                                let back = ArpPacket::from(v.clone()) == p && v.to_arp_packet() == p
+                                    && v.to_bytes()[..] == b[..ArpEthIpv4Packet::LEN] && v.sender_ipv4_addr().octets() == v.sender_ipv4 && v.target_ipv4_addr().octets() == v.target_ipv4
+                                    && ArpEthIpv4Packet::try_from(p.clone()) == Ok(v.clone());
                                 json!({"ev": "arp", "id": id, "bytes": b, "ok": 1, "req": -1, "view": "ok", "f": f, "back": if back { 1 } else { 0 }})
                             }
                             Err(e) => {
                                 let _ = format!("{} {:?}", e, e);
-                                json!({"ev": "arp", "id": id, "bytes": b, "ok": 1, "req": -1, "view": vname(&e), "f": [], "back": -1})
+                                let same = ArpEthIpv4Packet::try_from(p.clone()) == Err(e.clone());
+                                json!({"ev": "arp", "id": id, "bytes": b, "ok": 1, "req": -1, "view": if same { vname(&e) } else { "TryFromDiffers".to_string() }, "f": [], "back": -1})
                             }
                         }
                     }
